@@ -33,6 +33,7 @@ func runC18(c *Ctx) {
 		_, fmtFn, _ := printfFormatter(c.P)
 		return fmtFn != nil && strings.Contains(o.Key, shortName(fmtFn))
 	}, func(s *Ctx) { indexGuards(s, "R6") })
+	defer c.shared("R11", "C17/R3", "%s and %v are replaced by the rendering print gives the argument: the container renderer writes the documented pieces only (an element has the rendering it has on its own)", keyHas("render-write"), runC17)
 	defer c.shared("R8", "C09/R3", "an argument of the wrong kind is an error: the copy made when arguments are evaluated keeps the kind (a regex stays a regex, so %%s rejects it)", keyHas("copy Value"), c09R3)
 	defer c.shared("R7", "C17/R2", "%f is replaced by the rendering of the number: String() and the renderer produce FormatFloat(x, 'f', -1, 64) and nothing else (no integer fast path)", ruleIs("R2"), runC17)
 	defer c.shared("R6", "C08/R4", "each directive shows the value its argument had when it was evaluated: call arguments (printf's included) are evaluated into cells of their own, so a later argument's side effect cannot change an earlier one", keyHas("call-arguments-copied"), c08R4)
@@ -361,7 +362,49 @@ func runC18(c *Ctx) {
 	c.check(zeroOK, "R3", "zero-pad", p.Pos(pf.Pos()), "pad byte '0' exactly when the width text starts with '0'", "the zero pad is not selected by `first byte of the width text == '0'`")
 
 	widthLimit(c, "R4")
+	widthRefusalExact(c, "R4")
 	unbufferedOutput(c, "R5")
+}
+
+// widthRefusalExact (C18/R4 = C20/R3): the limit refuses a width beyond the limit and nothing else. There is
+// one `width specifier too large` exit, and every edge into it carries a comparison of the parsed width
+// with the limit constant; a second site or a further disjunct refuses widths the statement allows.
+func widthRefusalExact(c *Ctx, rule string) {
+	p := c.P
+	_, pf, _ := printfFormatter(p)
+	if pf == nil {
+		c.undecided(rule, "width-refusal", "", "anchor not found")
+		return
+	}
+	c.note("%s width-refusal-exact: printf has one exit with the message `width specifier too large`, and each edge into it is taken under n > 65536 or n < -65536 for the ParseInt result n: a width within the limit is never refused, whatever its spelling and whatever was formatted before it.", rule)
+	sites := 0
+	for _, ret := range returnsOf(pf) {
+		res := effectiveResults(ret)
+		if len(res) == 0 || !strings.Contains(p.RenderShort(res[len(res)-1]), "width specifier too large") {
+			continue
+		}
+		sites++
+		blk := ret.Block()
+		for i, pred := range blk.Preds {
+			desc, good := "unconditionally", false
+			if ef, ok := edgeFact(pred, blk); ok {
+				desc = "under " + boolFactText(p, ef)
+				if rl, isRel := relsOf(ef); isRel {
+					x, y, op := rl.x, rl.y, rl.op
+					if _, isK := constInt(x); isK {
+						x, y, op = y, x, flip(op)
+					}
+					xs := p.RenderShort(x)
+					desc = "under " + xs + " " + op.String() + " " + p.RenderShort(y)
+					if k, isK := constInt(y); isK && strings.HasPrefix(xs, "strconv.ParseInt(") && strings.HasSuffix(xs, "#0") {
+						good = op == relGT && k == 65536 || op == relGE && k == 65537 || op == relLT && k == -65536 || op == relLE && k == -65537
+					}
+				}
+			}
+			c.check(good, rule, fmt.Sprintf("width-refused-only-beyond-the-limit site %d edge %d", sites, i+1), p.InstrPos(ret), "refused "+desc, "`width specifier too large` is returned "+desc+", which is not a comparison of the parsed width with the limit 65536: a width within the limit is refused")
+		}
+	}
+	c.check(sites == 1, rule, "width-refusal-sites", p.Pos(pf.Pos()), "one `width specifier too large` exit", fmt.Sprintf("%d exits with `width specifier too large` (1 expected): the second one refuses by a test of its own", sites))
 }
 
 func guardsAtEdge(p *Program, F *Facts, from, to *ssa.BasicBlock) map[string]bool {
